@@ -99,7 +99,9 @@ def gen_mutants(rel, text):
         if isinstance(st, (ast.FunctionDef, ast.ClassDef)):
             # a default value / decorator / class-level constant: relevant to whoever interprets the body
             lines = [x.lineno for x in ast.walk(st) if isinstance(x, ast.stmt) and x is not st]
-        out.append(Mut(rel, node, src, op, lines))
+        mu = Mut(rel, node, src, op, lines)
+        mu.in_default = isinstance(st, (ast.FunctionDef, ast.ClassDef))
+        out.append(mu)
 
     SWAP = {ast.Add: ast.Sub, ast.Sub: ast.Add, ast.Mult: ast.Div, ast.Div: ast.Mult, ast.FloorDiv: ast.Div, ast.Mod: ast.FloorDiv}
     CMP = {ast.Lt: ast.LtE, ast.LtE: ast.Lt, ast.Gt: ast.GtE, ast.GtE: ast.Gt, ast.Eq: ast.NotEq, ast.NotEq: ast.Eq}
@@ -152,7 +154,41 @@ def gen_mutants(rel, text):
             m = copy.deepcopy(n)
             m.body, m.orelse = m.orelse, m.body
             add(n, m, "ifexp-swap")
+        if isinstance(n, ast.If) and not any(isinstance(x, ast.Raise) for x in n.body):
+            m = copy.deepcopy(n.test)
+            add(n.test, ast.UnaryOp(op=ast.Not(), operand=m), "if-negate")
+        if isinstance(n, ast.If) and any(isinstance(x, ast.Raise) for x in n.body) and not n.orelse:
+            # a validation guard switched off
+            add(n.test, ast.Constant(False), "guard-off")
+        if isinstance(n, ast.Call):
+            fname = ast.unparse(n.func)
+            last = fname.split(".")[-1]
+            if last == "where" and len(n.args) == 3:
+                m = copy.deepcopy(n)
+                m.args[1], m.args[2] = m.args[2], m.args[1]
+                add(n, m, "where-swap")
+            if last in NAME_SWAP and isinstance(n.func, (ast.Attribute, ast.Name)):
+                m = copy.deepcopy(n)
+                if isinstance(m.func, ast.Attribute):
+                    m.func.attr = NAME_SWAP[last]
+                else:
+                    m.func.id = NAME_SWAP[last]
+                add(n, m, f"call-swap:{last}")
+            if len(n.args) >= 2 and not n.keywords and last not in ("where", "isinstance", "range", "zip", "getattr", "setattr", "super", "print"):
+                a0, a1 = n.args[0], n.args[1]
+                if not isinstance(a0, ast.Starred) and not isinstance(a1, ast.Starred) and ast.unparse(a0) != ast.unparse(a1) and type(a0) is type(a1):
+                    m = copy.deepcopy(n)
+                    m.args[0], m.args[1] = m.args[1], m.args[0]
+                    add(n, m, "arg-swap")
+        if isinstance(n, (ast.Assign, ast.AugAssign)) and isinstance(parents.get(n), ast.FunctionDef) is False and isinstance(n, ast.AugAssign):
+            add(n, ast.Pass(), "stmt-del")
     return out
+
+
+NAME_SWAP = {"sin": "cos", "cos": "sin", "min": "max", "max": "min", "minimum": "maximum", "maximum": "minimum", "real": "imag", "imag": "real",
+             "sum": "mean", "mean": "sum", "amax": "amin", "zeros": "ones", "ones": "zeros", "zeros_like": "ones_like", "ones_like": "zeros_like",
+             "fft": "ifft", "rfftn": "fftn", "floor": "ceil", "ceil": "floor", "sqrt": "square", "exp": "expm1", "concatenate": "stack", "stack": "concatenate",
+             "conj": "real", "abs": "real", "std": "var", "triu": "tril", "prod": "sum"}
 
 
 def apply(text, mut):
@@ -227,6 +263,14 @@ def main():
                 continue
             texts[rel] = open(path, encoding="utf-8").read()
             muts += gen_mutants(rel, texts[rel])
+    ops = opt("--ops", "")
+    if ops:
+        muts = [m for m in muts if m.op.split(":")[0] in ops.split(",")]
+    notops = opt("--not-ops", "")
+    if notops:
+        muts = [m for m in muts if m.op.split(":")[0] not in notops.split(",")]
+    if "--no-defaults" in args:
+        muts = [m for m in muts if not m.in_default]
     muts.sort(key=lambda m: m.ident())
     random.Random(seed).shuffle(muts)
     total = len(muts)
